@@ -206,11 +206,11 @@ def consistency_reach(repo: Repo) -> RuleRun:
 
         wire_cls = repo.cls("items.wires.wire.Wire")
 
-        def mk(counts, coin=None, anti=False):
+        def mk(counts, coin=None, anti=False, collapsed=(), more=()):
             wires = []
             for i, c in enumerate(counts):
                 w = Obj(f"w{i}", cls=wire_cls)
-                w.set("vertices", [Sym(f"va{i}"), Sym(f"vb{i}")])
+                w.set("vertices", [Sym(f"va{i}"), Sym(f"va{i}" if i in collapsed else f"vb{i}")])
                 w.set("corners", [0, 1])
                 w.set("axis", 0)
                 g = Obj(f"g{i}")
@@ -234,6 +234,15 @@ def consistency_reach(repo: Repo) -> RuleRun:
                 cw.set("grading", cg)
                 cw.set("coincidents", set())
                 wires[idx].get("coincidents").add(cw)
+            for k, (idx, ccount) in enumerate(more):
+                # further blocks at the same edge (four blocks in edge-only contact around one edge)
+                cw = Obj(f"cw{k}", cls=wire_cls)
+                cw.set("vertices", [Sym(f"va{idx}"), Sym(f"vb{idx}")])
+                cw.set("corners", [0, 1])
+                cw.set("axis", 0)
+                cw.set("grading", Obj(f"cg{k}", count=ccount, counts=[ccount - 2, 2], is_defined=True))
+                cw.set("coincidents", set())
+                wires[idx].get("coincidents").add(cw)
             mgr = Obj("mgr", cls=raiser.cls)
             mgr.set("wires", wires)
             mgr.set("chops", [])
@@ -248,6 +257,11 @@ def consistency_reach(repo: Repo) -> RuleRun:
             ("neighbour block agrees", mk([5, 5, 5, 5], (2, 5, True)), False),
             ("neighbour block demands another count on wire 1, its wire running the other way", mk([5, 5, 5, 5], (1, 7, True), anti=True), True),
             ("neighbour block agrees, its wire running the other way", mk([5, 5, 5, 5], (2, 5, True), anti=True), False),
+            ("three more blocks at edge 1, one of them agrees and two demand another count", mk([5, 5, 5, 5], more=((1, 5), (1, 7), (1, 7))), True),
+            ("two more blocks at edge 2, both agree", mk([5, 5, 5, 5], more=((2, 5), (2, 5))), False),
+            ("a collapsed wire carries another count than the three real edges", mk([7, 5, 5, 5], collapsed=(0,)), True),
+            ("wire 0 collapsed, a neighbour demands another count on wire 2", mk([5, 5, 5, 5], (2, 7, True), collapsed=(0,)), True),
+            ("wire 1 collapsed, a neighbour demands another count on wire 3", mk([5, 5, 5, 5], (3, 7, True), collapsed=(1,)), True),
         ]
         for label, mgr, should in cases:
             try:
